@@ -84,11 +84,40 @@ def peltool():
     return pt
 
 
-def run_main(argv, order='sorted', os_log=None, stdout=None, open_fn=None, remove_hook=None, pt=None):
+_PRISTINE = []
+
+
+def pristine():
+    """Module-level state of the freshly imported implementation, captured once per worker process before any run."""
+    if not _PRISTINE:
+        from mc import statefp, impl
+        impl.fresh(bool(impl._current.get('registry')))
+        _PRISTINE.append(statefp.Snapshot())
+    return _PRISTINE[0]
+
+
+class _Capture(io.TextIOWrapper):
+    """What the tool's stdout / stderr are in a real run: text layers with the UTF-8 codec (stdout strict, stderr
+    backslashreplace), so text that cannot be encoded fails here exactly where it fails on a terminal or a pipe."""
+
+    def __init__(self, errors):
+        super().__init__(io.BytesIO(), encoding='utf-8', errors=errors, newline='\n', write_through=True)
+
+    def getvalue(self):
+        self.flush()
+        return self.buffer.getvalue().decode('utf-8', errors='surrogateescape')
+
+
+def run_main(argv, order='sorted', os_log=None, stdout=None, open_fn=None, remove_hook=None, pt=None, isolate=False):
     """
     Call the real main() with argv.  Returns Result.  `order` is the directory-listing order answer,
     `stdout` optionally a ready-made text stream (fault injection), `open_fn` shadows open() in the module.
+    `isolate`: every invocation of the tool is a process of its own - put the module-level state (parser caches, tables,
+    loaded plug-ins) back to that of a fresh interpreter first, so that what one run leaves behind cannot mask or fake a
+    difference in the next.
     """
+    if isolate:
+        pristine().restore()
     pt = pt or peltool()
     r = Result()
     old = (sys.argv, sys.stdout, sys.stderr)
@@ -101,8 +130,8 @@ def run_main(argv, order='sorted', os_log=None, stdout=None, open_fn=None, remov
     pt.os = proxy
     if open_fn is not None:
         pt.open = open_fn
-    out = stdout if stdout is not None else io.StringIO()
-    err = io.StringIO()
+    out = stdout if stdout is not None else _Capture('strict')
+    err = _Capture('backslashreplace')
     sys.argv = ['peltool.py'] + list(argv)
     sys.stdout, sys.stderr = out, err
     try:
